@@ -127,15 +127,43 @@ theorem end_length (g : Cfg) (p : P) (tok rest : Bytes) (acc : List Ev) (v body 
 
 /-! ### chunked -/
 
-/-- `parseTransferEncoding; parseContentLength; parseTrailer` for a single `Transfer-Encoding: chunked` -/
+/-- valid Content-Length values pass `parseContentLength` -/
+theorem parseCL_ok_of_valid (p : P) (h : clValuesOk p.cl = true) : ∃ q, parseCL p = .ok q := by
+  unfold parseCL
+  cases hc : p.cl with
+  | nil => exact ⟨_, rfl⟩
+  | cons v rest =>
+    rw [hc] at h
+    simp only [clValuesOk, Bool.and_eq_true, List.all_eq_true, beq_iff_eq, decide_eq_true_eq] at h
+    obtain ⟨⟨⟨h1, h2⟩, h3⟩, h4⟩ := h
+    have hany : (rest.any fun w => trimRightSpaces w != trimRightSpaces v) = false := by
+      simp only [List.any_eq_false, bne_iff_ne, ne_eq, Decidable.not_not]
+      exact h1
+    have hp := parseCL_digits _ h2 (by simpa using h3) h4
+    simp only [hany, Bool.false_eq_true, if_false, hp]
+    have : ¬ (Int.ofNat (decimal (trimRightSpaces v)) < 0) := by simp
+    simp only [this, if_false]
+    exact ⟨_, rfl⟩
+
+/-- `parseTransferEncoding; parseContentLength; parseTrailer` for a single `Transfer-Encoding: chunked` (any
+    accompanying Content-Length values valid) -/
 theorem framing_chunked (p : P) (v : Bytes) (hte : p.te = [v]) (hv : (trim v).map toLower = str "chunked")
+    (hclv : clValuesOk p.cl = true)
     (hforb : (declaredKeys p.tr).any forbiddenTrailer = false) (htrailer : p.trailer = []) :
     ∃ p1, endOfHeaders p = .ok p1 ∧ p1.contentLength = -1 ∧
       addTrailerKeys p1 = .ok { p with te := [], cl := [], tr := [], chunked := true, contentLength := -1,
                                        trailer := (declaredKeys p.tr).eraseDups } := by
   refine ⟨{ p with te := [], cl := [], chunked := true, contentLength := -1 }, ?_, rfl, ?_⟩
-  · have hh : ([v] : List Bytes).head! = v := rfl
-    simp [endOfHeaders, parseTE, parseCL, hte, hh, hv, bind, Except.bind, pure, Except.pure]
+  · obtain ⟨q, hq⟩ := parseCL_ok_of_valid p hclv
+    have hte' : parseTE p = .ok { p with te := [], cl := [], chunked := true } := by
+      unfold parseTE
+      rw [hte]
+      simp only [hv, ne_eq, not_true_eq_false, if_false]
+      cases hc : p.cl with
+      | nil => rfl
+      | cons a as => simp only [hq]; rfl
+    simp only [endOfHeaders, hte', bind, Except.bind]
+    simp [parseCL, pure, Except.pure]
   · by_cases htr : p.tr = []
     · simp [addTrailerKeys, htr, declaredKeys, htrailer, pure, Except.pure]
     · simp [addTrailerKeys, htr, hforb, pure, Except.pure]
@@ -143,13 +171,14 @@ theorem framing_chunked (p : P) (v : Bytes) (hte : p.te = [v]) (hv : (trim v).ma
 /-- the blank line of a chunked message: the parser goes on to the first chunk-size line -/
 theorem end_chunked (g : Cfg) (p : P) (tok rest : Bytes) (acc : List Ev) (v : Bytes)
     (hp : p.st = .headerKeyBefore) (hte : p.te = [v]) (hv : (trim v).map toLower = str "chunked")
+    (hclv : clValuesOk p.cl = true)
     (hforb : (declaredKeys p.tr).any forbiddenTrailer = false) (htrailer : p.trailer = []) :
     specFeed (M g) p tok ([CR, LF] ++ rest) acc =
       specFeed (M g)
         { p with te := [], cl := [], tr := [], chunked := true, contentLength := -1,
                  trailer := (declaredKeys p.tr).eraseDups, st := .chunkSizeBefore, headerExists := false }
         [] rest (acc ++ [.contentLength (-1)]) := by
-  obtain ⟨p1, h1, h2, h3⟩ := framing_chunked p v hte hv hforb htrailer
+  obtain ⟨p1, h1, h2, h3⟩ := framing_chunked p v hte hv hclv hforb htrailer
   simp only [List.cons_append, List.nil_append]
   rw [spec_step g p tok CR _ acc
         { p with te := [], cl := [], tr := [], chunked := true, contentLength := -1,
@@ -163,17 +192,20 @@ theorem end_chunked (g : Cfg) (p : P) (tok rest : Bytes) (acc : List Ev) (v : By
   simp
 
 set_option maxRecDepth 8192 in
-theorem hex_facts (c : UInt8) (h : isHex c = true) : c ≠ SP ∧ c ≠ CR := by
-  have key := forall_uint8 (fun c => !isHex c || (c != SP && c != CR)) (by decide) c
-  simpa [h] using key
+theorem hex_facts (c : UInt8) (h : isHex c = true) : c ≠ SP ∧ c ≠ CR ∧ c ≠ LF := by
+  have key := forall_uint8 (fun c => !isHex c || (c != SP && c != CR && c != LF)) (by decide) c
+  simp only [h, Bool.not_true, Bool.false_or, Bool.and_eq_true, bne_iff_ne, ne_eq] at key
+  exact ⟨key.1.1, key.1.2, key.2⟩
 
-/-- a chunk-size line `HEXDIG+ [";" ext] CR`: the size is parsed when the first non-hex byte is seen -/
+/-- a chunk-size line `HEXDIG+ [";" ext] CR`: the size is parsed at the ';' or the CR; after the ';' everything up
+    to the CR (except a bare LF) is extension -/
 theorem chunk_size_line (g : Cfg) (p : P) (tok : Bytes) (size ext rest : Bytes) (acc : List Ev)
     (hp : p.st = .chunkSizeBefore)
     (hne : size ≠ []) (hhex : size.all isHex = true) (hlt : hexadecimal size < 2 ^ 62)
-    (hext : ext = [] ∨ ∃ es, ext = 59 :: es ∧ ∀ c ∈ es, c ≠ SP ∧ c ≠ CR) :
+    (hext : ext = [] ∨ ∃ es, ext = 59 :: es ∧ ∀ c ∈ es, c ≠ CR ∧ c ≠ LF) :
     specFeed (M g) p tok (size ++ ext ++ [CR] ++ rest) acc =
-      specFeed (M g) { p with chunkSize := Int.ofNat (hexadecimal size), st := .chunkSizeLF } [] rest acc := by
+      specFeed (M g) { p with chunkSize := Int.ofNat (hexadecimal size), chunkExt := !ext.isEmpty, st := .chunkSizeLF }
+        [] rest acc := by
   have hparse : parseHexSize size = some (hexadecimal size) := by
     simp only [parseHexSize, parseNat, hne, if_false, hhex, if_true, hexadecimal] at hlt ⊢
     simp [hlt]
@@ -183,50 +215,56 @@ theorem chunk_size_line (g : Cfg) (p : P) (tok : Bytes) (size ext rest : Bytes) 
   simp only [List.all_cons, Bool.and_eq_true, List.all_eq_true] at hhex
   obtain ⟨hs0, hss⟩ := hhex
   simp only [List.cons_append, List.append_assoc]
-  rw [spec_step g p tok s0 _ acc { p with chunkSize := -1, st := .chunkSize } .here [] (by simp [block, hp])
-        (by simp [byteStep, hp, hs0, ok])]
+  rw [spec_step g p tok s0 _ acc { p with chunkSize := -1, chunkExt := false, st := .chunkSize } .here []
+        (by simp [block, hp]) (by simp [byteStep, hp, hs0, ok])]
   simp only [nextTok_here, List.append_nil]
-  rw [scan_keep g { p with chunkSize := -1, st := .chunkSize } (by simp [block]) ss
-        (by intro c hc tok'; have ⟨a, b⟩ := hex_facts c (hss c hc); simp [byteStep, ok, a, b, hss c hc])]
-  have hpc : parseChunk { p with chunkSize := -1, st := .chunkSize } (s0 :: ss)
-      = .ok { p with chunkSize := Int.ofNat (hexadecimal (s0 :: ss)), st := .chunkSize } := by
+  rw [scan_keep g { p with chunkSize := -1, chunkExt := false, st := .chunkSize } (by simp [block]) ss
+        (by intro c hc tok'
+            have ⟨a, b, d⟩ := hex_facts c (hss c hc)
+            simp [byteStep, ok, a, b, d, hss c hc])]
+  have hpc : parseChunk { p with chunkSize := -1, chunkExt := false, st := .chunkSize } (s0 :: ss)
+      = .ok { p with chunkSize := Int.ofNat (hexadecimal (s0 :: ss)), chunkExt := false, st := .chunkSize } := by
     simp only [parseChunk, hparse]
     simp [pure, Except.pure]
   simp only [List.singleton_append]
   rcases hext with hext | ⟨es, hext, hes⟩
   · subst hext
     simp only [List.nil_append, List.cons_append]
-    rw [spec_step g _ _ CR _ acc { p with chunkSize := Int.ofNat (hexadecimal (s0 :: ss)), st := .chunkSizeLF } .next []
-          (by simp [block]) (by simp only [byteStep, hpc]; simp [ok, CR, SP])]
+    rw [spec_step g _ _ CR _ acc
+          { p with chunkSize := Int.ofNat (hexadecimal (s0 :: ss)), chunkExt := false, st := .chunkSizeLF } .next []
+          (by simp [block]) (by simp only [byteStep, hpc]; simp [ok, CR, SP, LF])]
     simp
   · subst hext
     simp only [List.cons_append]
-    rw [spec_step g _ _ 59 _ acc { p with chunkSize := Int.ofNat (hexadecimal (s0 :: ss)), st := .chunkSize } .keep []
+    rw [spec_step g _ _ 59 _ acc
+          { p with chunkSize := Int.ofNat (hexadecimal (s0 :: ss)), chunkExt := true, st := .chunkSize } .keep []
           (by simp [block])
-          (by simp only [byteStep, hpc]; simp [ok, CR, SP, show isHex 59 = false by decide])]
+          (by simp only [byteStep, hpc]; simp [ok, CR, SP, LF, show isHex 59 = false by decide])]
     simp only [List.append_nil, nextTok_keep]
-    have hnoop : ∀ tok', parseChunk { p with chunkSize := Int.ofNat (hexadecimal (s0 :: ss)), st := .chunkSize } tok'
-        = .ok { p with chunkSize := Int.ofNat (hexadecimal (s0 :: ss)), st := .chunkSize } := by
+    have hnoop : ∀ tok', parseChunk { p with chunkSize := Int.ofNat (hexadecimal (s0 :: ss)), chunkExt := true, st := .chunkSize } tok'
+        = .ok { p with chunkSize := Int.ofNat (hexadecimal (s0 :: ss)), chunkExt := true, st := .chunkSize } := by
       intro tok'
       simp only [parseChunk]
       rw [if_neg (by simp)]
       rfl
-    rw [scan_keep g { p with chunkSize := Int.ofNat (hexadecimal (s0 :: ss)), st := .chunkSize } (by simp [block]) es
+    rw [scan_keep g { p with chunkSize := Int.ofNat (hexadecimal (s0 :: ss)), chunkExt := true, st := .chunkSize }
+          (by simp [block]) es
           (by intro c hc tok'
               have ⟨a, b⟩ := hes c hc
-              simp only [byteStep, hnoop]
-              by_cases hx : isHex c = true <;> simp [ok, a, b, hx])]
-    rw [spec_step g _ _ CR _ acc { p with chunkSize := Int.ofNat (hexadecimal (s0 :: ss)), st := .chunkSizeLF } .next []
-          (by simp [block]) (by simp only [byteStep, hnoop]; simp [ok, CR, SP])]
+              simp [byteStep, ok, a, b]
+              intro h; omega)]
+    rw [spec_step g _ _ CR _ acc
+          { p with chunkSize := Int.ofNat (hexadecimal (s0 :: ss)), chunkExt := true, st := .chunkSizeLF } .next []
+          (by simp [block]) (by simp only [byteStep, hnoop]; simp [ok, CR, SP, LF])]
     simp
 
 /-- what the parser needs from a chunk as written -/
 def Chunk.parsable (c : Chunk) : Prop :=
   c.size ≠ [] ∧ c.size.all isHex = true ∧ hexadecimal c.size = c.data.length ∧ c.data ≠ [] ∧ c.data.length < 2 ^ 62 ∧
-  (c.ext = [] ∨ ∃ es, c.ext = 59 :: es ∧ ∀ x ∈ es, x ≠ SP ∧ x ≠ CR)
+  (c.ext = [] ∨ ∃ es, c.ext = 59 :: es ∧ ∀ x ∈ es, x ≠ CR ∧ x ≠ LF)
 
 theorem ext_parsable (ext : Bytes) (h : (ext = [] || (ext.head? == some 59 && ext.all visible)) = true) :
-    ext = [] ∨ ∃ es, ext = 59 :: es ∧ ∀ x ∈ es, x ≠ SP ∧ x ≠ CR := by
+    ext = [] ∨ ∃ es, ext = 59 :: es ∧ ∀ x ∈ es, x ≠ CR ∧ x ≠ LF := by
   cases ext with
   | nil => exact Or.inl rfl
   | cons e0 es =>
@@ -235,7 +273,7 @@ theorem ext_parsable (ext : Bytes) (h : (ext = [] || (ext.head? == some 59 && ex
       Option.some.injEq, List.all_cons, List.all_eq_true] at h
     obtain ⟨h0, _, hes⟩ := h
     subst h0
-    exact ⟨es, rfl, fun x hx => let ⟨a, b, _⟩ := visible_facts x (hes x hx); ⟨a, b⟩⟩
+    exact ⟨es, rfl, fun x hx => let ⟨_, b, c⟩ := visible_facts x (hes x hx); ⟨b, c⟩⟩
 
 theorem Chunk.wf_parsable (c : Chunk) (h : c.wf = true) : c.parsable := by
   simp only [Chunk.wf, Bool.and_eq_true, decide_eq_true_eq, beq_iff_eq] at h
@@ -247,7 +285,8 @@ theorem chunk_line (g : Cfg) (p : P) (tok : Bytes) (c : Chunk) (rest : Bytes) (a
     (hp : p.st = .chunkSizeBefore) (hc : c.parsable)
     (hmax : g.maxBody = 0 ∨ c.data.length + p.bodyHeld ≤ g.maxBody) :
     ∃ tok', specFeed (M g) p tok (c.render ++ rest) acc =
-      specFeed (M g) { p with chunkSize := Int.ofNat c.data.length, bodyHeld := p.bodyHeld + c.data.length }
+      specFeed (M g) { p with chunkSize := Int.ofNat c.data.length, chunkExt := !c.ext.isEmpty,
+                              bodyHeld := p.bodyHeld + c.data.length }
         tok' rest (acc ++ [.body c.data]) := by
   obtain ⟨size, ext, data⟩ := c
   obtain ⟨h1, h2, h3, h4, h5, h6⟩ := hc
@@ -258,24 +297,24 @@ theorem chunk_line (g : Cfg) (p : P) (tok : Bytes) (c : Chunk) (rest : Bytes) (a
   simp only [List.append_assoc, List.cons_append, List.nil_append] at e
   rw [e, h3]
   -- LF
-  rw [spec_step g _ _ LF _ acc { p with chunkSize := Int.ofNat data.length, st := .chunkData } .next []
+  rw [spec_step g _ _ LF _ acc { p with chunkSize := Int.ofNat data.length, chunkExt := !ext.isEmpty, st := .chunkData } .next []
         (by simp [block]) (by simp [byteStep, ok, h4])]
   simp only [nextTok_next, List.append_nil]
   -- data block
-  have hblk : (M g).block { p with chunkSize := Int.ofNat data.length, st := .chunkData } = some data.length := by
+  have hblk : (M g).block { p with chunkSize := Int.ofNat data.length, chunkExt := !ext.isEmpty, st := .chunkData } = some data.length := by
     simp [machine, block, h4]
   rw [spec_block_full (M g) _ data.length hblk data [] _ acc h4 (by simp)]
   have hmx : ¬ (0 < g.maxBody ∧ g.maxBody < data.length + p.bodyHeld) := by
     rcases hmax with h | h <;> omega
-  have hbd : (M g).blockDone { p with chunkSize := Int.ofNat data.length, st := .chunkData } ([] ++ data)
-      = .ok { p with chunkSize := Int.ofNat data.length, bodyHeld := p.bodyHeld + data.length, st := .chunkDataCR }
+  have hbd : (M g).blockDone { p with chunkSize := Int.ofNat data.length, chunkExt := !ext.isEmpty, st := .chunkData } ([] ++ data)
+      = .ok { p with chunkSize := Int.ofNat data.length, chunkExt := !ext.isEmpty, bodyHeld := p.bodyHeld + data.length, st := .chunkDataCR }
           .next [.body data] := by
     simp [machine, blockDone, ok, er, hmx]
   simp only [hbd]
   -- CR LF
-  rw [spec_step g _ _ CR _ _ { p with chunkSize := Int.ofNat data.length, bodyHeld := p.bodyHeld + data.length, st := .chunkDataLF }
+  rw [spec_step g _ _ CR _ _ { p with chunkSize := Int.ofNat data.length, chunkExt := !ext.isEmpty, bodyHeld := p.bodyHeld + data.length, st := .chunkDataLF }
         .keep [] (by simp [block]) (by simp [byteStep, ok])]
-  rw [spec_step g _ _ LF _ _ { p with chunkSize := Int.ofNat data.length, bodyHeld := p.bodyHeld + data.length, st := .chunkSizeBefore }
+  rw [spec_step g _ _ LF _ _ { p with chunkSize := Int.ofNat data.length, chunkExt := !ext.isEmpty, bodyHeld := p.bodyHeld + data.length, st := .chunkSizeBefore }
         .keep [] (by simp [block]) (by simp [byteStep, ok])]
   refine ⟨?w, ?h⟩
   case h =>
@@ -291,20 +330,20 @@ theorem chunk_lines (g : Cfg) (cs : List Chunk) :
     ∀ (p : P) (tok rest : Bytes) (acc : List Ev),
       p.st = .chunkSizeBefore → (∀ c ∈ cs, c.parsable) →
       (g.maxBody = 0 ∨ chunksLen cs + p.bodyHeld ≤ g.maxBody) →
-      ∃ tok' cz, specFeed (M g) p tok ((cs.map Chunk.render).flatten ++ rest) acc =
-        specFeed (M g) { p with chunkSize := cz, bodyHeld := p.bodyHeld + chunksLen cs } tok' rest
+      ∃ tok' cz ce, specFeed (M g) p tok ((cs.map Chunk.render).flatten ++ rest) acc =
+        specFeed (M g) { p with chunkSize := cz, chunkExt := ce, bodyHeld := p.bodyHeld + chunksLen cs } tok' rest
           (acc ++ cs.map (fun c => Ev.body c.data)) := by
   induction cs with
-  | nil => intro p tok rest acc _ _ _; exact ⟨tok, p.chunkSize, by simp [chunksLen]⟩
+  | nil => intro p tok rest acc _ _ _; exact ⟨tok, p.chunkSize, p.chunkExt, by simp [chunksLen]⟩
   | cons c cs ih =>
     intro p tok rest acc hp hall hmax
     have hlen : chunksLen (c :: cs) = c.data.length + chunksLen cs := by simp [chunksLen]
     obtain ⟨tok1, e1⟩ := chunk_line g p tok c ((cs.map Chunk.render).flatten ++ rest) acc hp (hall c (by simp))
       (by rcases hmax with h | h; exact Or.inl h; right; omega)
-    obtain ⟨tok2, cz, e2⟩ := ih { p with chunkSize := Int.ofNat c.data.length, bodyHeld := p.bodyHeld + c.data.length }
+    obtain ⟨tok2, cz, ce, e2⟩ := ih { p with chunkSize := Int.ofNat c.data.length, chunkExt := !c.ext.isEmpty, bodyHeld := p.bodyHeld + c.data.length }
       tok1 rest (acc ++ [.body c.data]) hp (fun x hx => hall x (by simp [hx]))
       (by rcases hmax with h | h; exact Or.inl h; right; simp only; omega)
-    refine ⟨tok2, cz, ?_⟩
+    refine ⟨tok2, cz, ce, ?_⟩
     simp only [List.map_cons, List.flatten_cons, List.append_assoc]
     rw [e1, e2]
     congr 1
@@ -326,18 +365,19 @@ theorem zeros_facts (z : Bytes) (hz : z.all (· == 48) = true) : z.all isHex = t
 /-- the last-chunk line `0+ [ext] CRLF` -/
 theorem last_chunk (g : Cfg) (p : P) (tok : Bytes) (last ext rest : Bytes) (acc : List Ev)
     (hp : p.st = .chunkSizeBefore) (hne : last ≠ []) (hz : last.all (· == 48) = true)
-    (hext : ext = [] ∨ ∃ es, ext = 59 :: es ∧ ∀ c ∈ es, c ≠ SP ∧ c ≠ CR) :
+    (hext : ext = [] ∨ ∃ es, ext = 59 :: es ∧ ∀ c ∈ es, c ≠ CR ∧ c ≠ LF) :
     specFeed (M g) p tok (last ++ ext ++ crlf ++ rest) acc =
-      specFeed (M g) { p with chunkSize := 0, st := if p.trailer ≠ [] then .trKeyBefore else .tailCR } [] rest acc := by
+      specFeed (M g) { p with chunkSize := 0, chunkExt := !ext.isEmpty,
+                              st := if p.trailer ≠ [] then .trKeyBefore else .tailCR } [] rest acc := by
   have ⟨z1, z2⟩ := zeros_facts last hz
   have e := chunk_size_line g p tok last ext ([LF] ++ rest) acc hp hne z1 (by rw [z2]; decide) hext
   simp only [crlf, List.append_assoc, List.cons_append, List.nil_append] at e ⊢
   rw [e, z2]
   by_cases hT : p.trailer = []
-  · rw [spec_step g _ _ LF _ acc { p with chunkSize := 0, st := .tailCR } .next [] (by simp [block])
+  · rw [spec_step g _ _ LF _ acc { p with chunkSize := 0, chunkExt := !ext.isEmpty, st := .tailCR } .next [] (by simp [block])
           (by simp [byteStep, ok, hT])]
     simp [hT]
-  · rw [spec_step g _ _ LF _ acc { p with chunkSize := 0, st := .trKeyBefore } .next [] (by simp [block])
+  · rw [spec_step g _ _ LF _ acc { p with chunkSize := 0, chunkExt := !ext.isEmpty, st := .trKeyBefore } .next [] (by simp [block])
           (by simp [byteStep, ok, hT])]
     simp [hT]
 
@@ -358,7 +398,7 @@ theorem trailer_line (g : Cfg) (p : P) (tok : Bytes) (h : Hdr) (rest : Bytes) (a
   | nil => exact absurd rfl hne
   | cons v0 vs =>
   have hv0 : v0 ≠ SP := by simpa using hhead
-  have ⟨c1, _⟩ := hvalue v0 (by simp)
+  have ⟨c1, c2⟩ := hvalue v0 (by simp)
   simp only [Hdr.render, Hdr.key, Hdr.trValue, List.cons_append, List.append_assoc, List.nil_append, crlf]
   rw [spec_step g p tok k0 _ acc { p with st := .trKey } .here [] (by simp [block, hp])
         (by simp [byteStep, hp, hname k0 (by simp), ok])]
@@ -373,14 +413,14 @@ theorem trailer_line (g : Cfg) (p : P) (tok : Bytes) (h : Hdr) (rest : Bytes) (a
   rw [scan_keep g { p with st := .trValueBefore, hKey := canonicalKey (k0 :: ks) } (by simp [block]) (List.replicate pad SP)
         (by intro c hc tok'; have := List.eq_of_mem_replicate hc; subst this; simp [byteStep, ok])]
   rw [spec_step g _ _ v0 _ acc { p with st := .trValue, hKey := canonicalKey (k0 :: ks) } .here []
-        (by simp [block]) (by simp [byteStep, ok, hv0, c1])]
+        (by simp [block]) (by simp [byteStep, ok, hv0, c1, c2])]
   simp only [nextTok_here, List.append_nil]
   rw [scan_keep g { p with st := .trValue, hKey := canonicalKey (k0 :: ks) } (by simp [block]) vs
-        (by intro c hc tok'; have := hvalue c (by simp [hc]); simp [byteStep, ok, this.1])]
+        (by intro c hc tok'; have := hvalue c (by simp [hc]); simp [byteStep, ok, this.1, this.2])]
   rw [spec_step g _ _ CR _ acc
         { p with st := .trValueLF, trailer := p.trailer.erase (canonicalKey (k0 :: ks)) } .next
         [.trailer (canonicalKey (k0 :: ks)) (trimRightSpaces (v0 :: vs))]
-        (by simp [block]) (by simp [byteStep, ok, hval, hkey, hT])]
+        (by simp [block]) (by simp [byteStep, ok, hval, hkey, hT, CR, LF])]
   rw [spec_step g _ _ LF _ _ { p with st := .trKeyBefore, trailer := p.trailer.erase (canonicalKey (k0 :: ks)) } .here []
         (by simp [block]) (by simp [byteStep, ok])]
   refine ⟨?w, ?h⟩
@@ -451,7 +491,7 @@ theorem chunked_body (g : Cfg) (p : P) (tok rest : Bytes) (acc : List Ev)
     (cs : List Chunk) (last ext : Bytes) (trs : List Hdr)
     (hp : p.st = .chunkSizeBefore) (hq : Quiet p) (hx : p.headerExists = false)
     (hcs : ∀ c ∈ cs, c.parsable) (hne : last ≠ []) (hz : last.all (· == 48) = true)
-    (hext : ext = [] ∨ ∃ es, ext = 59 :: es ∧ ∀ c ∈ es, c ≠ SP ∧ c ≠ CR)
+    (hext : ext = [] ∨ ∃ es, ext = 59 :: es ∧ ∀ c ∈ es, c ≠ CR ∧ c ≠ LF)
     (htr : ∀ h ∈ trs, h.parsable ∧ h.value ≠ [])
     (hmem : ∀ k ∈ trs.map Hdr.key, k ∈ p.trailer) (hnd : (trs.map Hdr.key).Nodup) (hlen : trs.length = p.trailer.length)
     (hmax : g.maxBody = 0 ∨ chunksLen cs + p.bodyHeld ≤ g.maxBody) :
@@ -461,11 +501,11 @@ theorem chunked_body (g : Cfg) (p : P) (tok rest : Bytes) (acc : List Ev)
   have hquiet : ∀ (q : P), q.proto = p.proto → q.statusCode = p.statusCode → q.status = p.status → q.hKey = p.hKey →
       q.hVal = p.hVal → Quiet q := fun q a b c d e => ⟨a ▸ hq.proto, b ▸ hq.statusCode, c ▸ hq.status, d ▸ hq.hKey, e ▸ hq.hVal⟩
   simp only [Body.render, Body.events, List.append_assoc]
-  obtain ⟨tok1, cz, e1⟩ := chunk_lines g cs p tok
+  obtain ⟨tok1, cz, ce, e1⟩ := chunk_lines g cs p tok
     ((last ++ ext ++ crlf) ++ ((trs.map Hdr.render).flatten ++ (crlf ++ rest))) acc hp hcs hmax
   simp only [List.append_assoc] at e1
   rw [e1]
-  have e2 := last_chunk g { p with chunkSize := cz, bodyHeld := p.bodyHeld + chunksLen cs } tok1 last ext
+  have e2 := last_chunk g { p with chunkSize := cz, chunkExt := ce, bodyHeld := p.bodyHeld + chunksLen cs } tok1 last ext
     ((trs.map Hdr.render).flatten ++ (crlf ++ rest)) (acc ++ cs.map (fun c => Ev.body c.data)) hp hne hz hext
   simp only [List.append_assoc] at e2
   rw [e2]
@@ -474,15 +514,15 @@ theorem chunked_body (g : Cfg) (p : P) (tok rest : Bytes) (acc : List Ev)
     subst this
     simp only [hT, ne_eq, not_true_eq_false, if_false, List.map_nil, List.flatten_nil, List.nil_append, List.append_nil]
     rw [tail_plain g _ _ rest _ rfl]
-    refine ⟨handleMessage g { p with chunkSize := 0, bodyHeld := p.bodyHeld + chunksLen cs, st := .tailCR }, ?_, ?_⟩
+    refine ⟨handleMessage g { p with chunkSize := 0, chunkExt := !ext.isEmpty, bodyHeld := p.bodyHeld + chunksLen cs, st := .tailCR }, ?_, ?_⟩
     · exact idle_handleMessage g _ (hquiet _ rfl rfl rfl rfl rfl) hx
     · simp [hT]
   · simp only [hT, ne_eq, not_false_eq_true, if_true]
     obtain ⟨tok3, e3⟩ := trailer_lines g trs
-      { p with chunkSize := 0, bodyHeld := p.bodyHeld + chunksLen cs, st := .trKeyBefore } [] (crlf ++ rest)
+      { p with chunkSize := 0, chunkExt := !ext.isEmpty, bodyHeld := p.bodyHeld + chunksLen cs, st := .trKeyBefore } [] (crlf ++ rest)
       (acc ++ cs.map (fun c => Ev.body c.data)) rfl hq.hKey hq.hVal htr hmem hnd hlen
     rw [e3, tail_trailers g _ _ rest _ rfl rfl]
-    refine ⟨handleMessage g { p with chunkSize := 0, bodyHeld := p.bodyHeld + chunksLen cs, st := .trKeyBefore, trailer := [] }, ?_, ?_⟩
+    refine ⟨handleMessage g { p with chunkSize := 0, chunkExt := !ext.isEmpty, bodyHeld := p.bodyHeld + chunksLen cs, st := .trKeyBefore, trailer := [] }, ?_, ?_⟩
     · exact idle_handleMessage g _ (hquiet _ rfl rfl rfl rfl rfl) hx
     · simp
 
